@@ -51,6 +51,9 @@ Definition op_sort (x : list (list Z)) := (rmap fr_rows (ra_sort (fr x)), spec_s
 Definition op_unique (x : list (list Z)) := (rmap (fun p => (fr_rows (fst p), fr_rows (snd p))) (ra_unique (fr x)), spec_unique x).
 Definition op_nonzero (x : list (list Z)) := (ra_nonzero (fr x), spec_nonzero x).
 Definition op_subset (x : list (list Z)) (m : list (list bool)) := (rmap fr_rows (ra_subset (fr x) (concat m)), spec_subset x m).
+Definition op_rslice1d (d : list Z) (st en : list Z) :=
+  (rmap fr_rows (ra_ragged_slice_1d d st en), spec_ragged_slice (map (fun _ => d) st) st en).
+Definition op_rslice2d (x : list (list Z)) (w : Z) (st en : list Z) := (rmap fr_rows (ra_ragged_slice_2d x w st en), spec_ragged_slice x st en).
 Definition op_rslice (x : list (list Z)) (st en : list Z) := (rmap fr_rows (ra_ragged_slice (fr x) st en), spec_ragged_slice x st en).
 Definition op_padded (x : list (list Z)) (fill : Z) (left : bool) := (ra_padded (fr x) fill left, spec_padded x fill left).
 Definition op_colsum (x : list (list Z)) := (ra_colsum (fr x), spec_colsum x).
@@ -93,8 +96,9 @@ Definition dc_select (o : list (list Z)) (s : rowsel) := obj_select Z o s.
 Definition dc_select_spec (o : list (list Z)) (s : rowsel) := rmap (cols Z 0%Z (length o)) (sel_rows s (dc_entries o)).
 Definition dc_item (o : list (list Z)) (i : Z) := obj_item Z o i.
 Definition dc_astype (o : list (list Z)) (keep : list Z) := (obj_astype Z o (map Z.to_nat keep), rmap (fun R => map (fun j => map (fun row : list Z => nth (Z.to_nat j) row 0%Z) R) keep) (if forallb (fun j => (0 <=? j)%Z && (j <? Z.of_nat (length o))%Z) keep then Ok (dc_entries o) else Refused)).
+Definition dc_iter (o : list (list Z)) := obj_iter Z o.
 Definition dc_item_spec (o : list (list Z)) (i : Z) := np_item (dc_entries o) i.
 Definition dc_concat (os : list (list (list Z))) := obj_concat Z os.
 Definition dc_eq (o o' : list (list Z)) : bool := Nat.eqb (length o) (length o') && obj_eqb Z Z.eqb o o'.
 Definition dc_concat_spec (os : list (list (list Z))) := cols Z 0%Z (match os with [] => O | o :: _ => length o end) (flat_map dc_entries os).
-Extraction "oracle_core.ml" geo_model geo_spec build_model build_spec flat_model flat_spec tonumpy_model tonumpy_spec fromnumpy_model offsets_model offsets_spec mi_model mi_spec heap_run dc_new dc_new_spec dc_select dc_select_spec dc_item dc_item_spec dc_astype dc_concat dc_concat_spec dc_eq from_ragged from_matrix rl2_obs rl2_select rl2_elem rl2_col rl2_sum rl2_max rl2_argmax rl2_ravel rl2_concat rl2_map rl2_map_col rl2_col_counts rl2_col_sum rl2_col_range rl2_intervals varlen_concat op_ufunc op_reduce op_cumsum op_accumulate op_diff op_sort op_unique op_nonzero op_subset op_rslice op_padded op_colsum op_colcounts op_argmax op_argmin rle_windows_Z rle_rlmask_Z op_fastidx op_where op_where_s op_like op_concat1 rle_encode rle_to_array rle_slice rle_slice_spec rle_get rle_bin rle_bin_spec rle_concat_Z rle_sum_Z rle_decode bit_unpack bit_get bit_getlist bit_window spec_windows Z.add Z.mul Z.opp Z.div_eucl Z.ltb hash_model hash_spec hash_eq setitem_model_Z setitem_spec_Z getitem_model_Z getitem_spec_Z chain_model_Z chain_spec_Z shape_codes sh_starts sh_lengths sh_size excl_prefix.
+Extraction "oracle_core.ml" geo_model geo_spec build_model build_spec flat_model flat_spec tonumpy_model tonumpy_spec fromnumpy_model offsets_model offsets_spec mi_model mi_spec heap_run dc_new dc_new_spec dc_select dc_select_spec dc_item dc_item_spec dc_iter dc_astype dc_concat dc_concat_spec dc_eq from_ragged from_matrix rl2_obs rl2_select rl2_elem rl2_col rl2_sum rl2_max rl2_argmax rl2_ravel rl2_concat rl2_map rl2_map_col rl2_col_counts rl2_col_sum rl2_col_range rl2_intervals varlen_concat op_ufunc op_reduce op_cumsum op_accumulate op_diff op_sort op_unique op_nonzero op_subset op_rslice op_rslice1d op_rslice2d op_padded op_colsum op_colcounts op_argmax op_argmin rle_windows_Z rle_rlmask_Z op_fastidx op_where op_where_s op_like op_concat1 rle_encode rle_to_array rle_slice rle_slice_spec rle_get rle_bin rle_bin_spec rle_concat_Z rle_sum_Z rle_decode bit_unpack bit_get bit_getlist bit_window spec_windows Z.add Z.mul Z.opp Z.div_eucl Z.ltb hash_model hash_spec hash_eq hash_add setitem_model_Z setitem_spec_Z getitem_model_Z getitem_spec_Z chain_model_Z chain_spec_Z shape_codes sh_starts sh_lengths sh_size excl_prefix.
